@@ -150,11 +150,12 @@ EXPECTED = {
     "Morb_H": (-1, 1, 0), "Morb_Hpm": (-1, 1, 0), "DerMorb_H": (-1, 1, 1), "DerMorb": (-1, 1, 1), "Der2Morb_H": (-1, 1, 2), "Der2Morb": (-1, 1, 2),
     "SpinOmega": (1, 1, 0),          # spin (odd) times curvature (odd) under time reversal
     "QuantumMetric_ab": (1, 1, 0), "DerQuantumMetric_ab_d": (1, 1, 1),
+    "SpinVelocity": (-1, 1, 1),      # spin (TR-odd, inversion-even) times one k-derivative (velocity)
 }
 EXPECTED_ELEM = {"Eavln": (1, 1, 0), "InvMass": (1, 1, 2), "DerWln": (1, 1, 3)}
 
 
-@unit("C08", "declared parities of the formula classes = parity of the base quantity x (-1)^(number of k-derivatives)", scope="shape:17 formula classes", expect_min=2)
+@unit("C08", "declared parities of the formula classes = parity of the base quantity x (-1)^(number of k-derivatives)", scope="shape:18 formula classes", expect_min=2)
 def _declared(U):
     import ast
     from pyvc.extract import read_source, find_def
@@ -178,7 +179,7 @@ def _declared(U):
             if got != want:
                 bad.append((cls, got, want))
         U.ensure("every listed formula class assigns exactly the expected pair of transformations in its constructor", not bad)
-        U.ensure("17 classes inspected", seen == 17)
+        U.ensure("18 classes inspected", seen == 18)
         return bad
     U.run(body, check_feasible=False)
     U.functions.extend(dict(qualname=F_COV + "::" + c + ".__init__", file=F_COV, lines=[0, 0], sha256="constructor assignments read from the AST", dropped=[], rewritten=[]) for c in EXPECTED)
@@ -258,7 +259,7 @@ def formula_world(U):
     reg = {}
     assemble(U, F_FORM, ["Formula", "Formula_ln", "Matrix_ln", "Matrix_GenDer_ln"], reg, g)
     assemble(U, F_ELEM, ["Eavln", "DEinv_ln", "InvMass", "DerWln", "Dcov", "DerDcov"], reg, g)
-    assemble(U, F_COV, ["Omega", "DerOmega", "Der3E", "Hamiltonian", "Velocity", "Spin", "DerSpin", "Morb_H", "Morb_Hpm", "morb"], reg, g)
+    assemble(U, F_COV, ["Omega", "DerOmega", "Der3E", "Hamiltonian", "Velocity", "Spin", "DerSpin", "Morb_H", "Morb_Hpm", "morb", "SpinVelocity"], reg, g)
     tr = U.fn(F_DK, "get_transform_TR", globs=dict(transform_ident=TI, transform_odd=TO), model=False, rewrite_comps=False)
     inv = U.fn(F_DK, "get_transform_Inv", globs=dict(transform_ident=TI, transform_odd=TO), model=False, rewrite_comps=False)
     fns = types.SimpleNamespace(Matrix_ln=reg["Matrix_ln"], Matrix_GenDer_ln=reg["Matrix_GenDer_ln"], covariant=types.SimpleNamespace(Dcov=reg["Dcov"]))
@@ -307,12 +308,13 @@ def _mk_data(DK, X, sign_of, conj):
 
 
 FORMULAS = [("Velocity", {}), ("InvMass", {}), ("Der3E", {}), ("Omega", {"external_terms": False}), ("Omega", {}), ("DerOmega", {"external_terms": False}), ("DerOmega", {}),
-            ("Spin", {}), ("DerSpin", {}), ("Morb_H", {"external_terms": False}), ("Morb_H", {}), ("morb", {})]
+            ("Spin", {}), ("DerSpin", {}), ("Morb_H", {"external_terms": False}), ("Morb_H", {}), ("morb", {}),
+            ("SpinVelocity", {"spin_current_type": "simple", "external_terms": False}), ("SpinVelocity", {"spin_current_type": "simple"})]
 
 
 def _formula_unit(sym, tiers=("quick", "thorough")):
     @unit("C08", "formula level (%s): trace at -k = declared transformation of the trace at k, real formula code on symbolic matrices" % sym,
-          scope="shape:3 bands with generic energies, band groups [0] and [1,2]; 12 formula variants", expect_min=10, tiers=tiers, timeout_ms=60000,
+          scope="shape:3 bands with generic energies, band groups [0] and [1,2]; 14 formula variants", expect_min=12, tiers=tiers, timeout_ms=60000,
           replay=lambda mv, ob: _replay_par(mv, ob), replay_once=True)
     def _f(U):
         reg, DK, tr, inv, TI, TO = formula_world(U)
